@@ -145,12 +145,14 @@ fn profile(name: &str) -> P {
             p.p_kill_self = 5;
             p.p_hpanic = 4;
             p.run_len = (0, 4);
+            p.burst = 8;
         }
         "kill" => {
             p.clients = (2, 6);
             p.ops = (2, 7);
             p.w_op = [35, 5, 22, 5, 8, 4, 14, 2, 3, 1, 1, 2, 1, 4];
             p.first_gated = 50;
+            p.burst = 8;
             p.p_kill_self = 8;
             p.p_start_err = 2;
             p.p_start_panic = 1;
@@ -453,6 +455,12 @@ impl G {
                 break;
             }
         }
+        let mut run_err_when_handled = None;
+        if self.p.burst > 0 && self.r.chance(12) {
+            // an on_run that keeps idling (Ok(true) every few ms) and fails as soon as it notices that enough messages were handled
+            run = (0..6).map(|_| RunStep { segs: vec![2 * self.r.range(1, 4)], steps: vec![], out: Out::True }).collect();
+            run_err_when_handled = Some(self.r.range(4, 30));
+        }
         let stop_steps = if self.r.chance(20) { self.hook_steps(a) } else { vec![] };
         let stop = HookScript {
             delay: if self.r.chance(self.p.p_stop_delay) { 2 * self.r.range(1, 2) } else { 0 },
@@ -470,6 +478,7 @@ impl G {
             start,
             run,
             stop,
+            run_err_when_handled,
             in_peers: self.in_peers[a],
         }
     }
@@ -646,7 +655,7 @@ fn finish(g: &mut G, profile_name: &str, seed: u64, mut actors: Vec<ActorSpec>, 
                     }
                     let mut reps = 1;
                     if p.burst > 0 && g.r.chance(10) {
-                        reps = p.burst;
+                        reps = *g.r.pick(&[p.burst, p.burst, 40, 70]);
                     }
                     if reps > 1 {
                         // a burst of identical-shape tells (distinct uids) to exercise queued-message priority
@@ -1006,6 +1015,7 @@ fn generate_deadlock(seed: u64) -> Scenario {
                 steps: stop_steps,
                 out: Out::Ok,
             },
+            run_err_when_handled: None,
             in_peers: true,
         });
     }
